@@ -2308,8 +2308,25 @@ fn extract_join_key(arrays: &[ArrayRef], row: usize) -> JoinKey {
             if let Some(a) = arr.as_any().downcast_ref::<arrow::array::StringArray>() {
                 return JoinValue::String(a.value(row).to_string());
             }
+            if let Some(a) = arr.as_any().downcast_ref::<Date32Array>() {
+                return JoinValue::Int64(a.value(row) as i64);
+            }
+            if let Some(a) = arr.as_any().downcast_ref::<arrow::array::BooleanArray>() {
+                return JoinValue::Int64(a.value(row) as i64);
+            }
 
-            JoinValue::Null
+            // Any other key type: a non-NULL value must never turn into
+            // JoinValue::Null (NULL keys match nothing, so every row of such a
+            // join would silently be dropped). Both sides of an equi-join key
+            // have the same type, so the canonical text of the value is a
+            // faithful key.
+            match arrow::util::display::ArrayFormatter::try_new(
+                arr.as_ref(),
+                &arrow::util::display::FormatOptions::default(),
+            ) {
+                Ok(f) => JoinValue::String(f.value(row).to_string()),
+                Err(_) => JoinValue::Null,
+            }
         })
         .collect();
 
